@@ -199,6 +199,20 @@ def run_history(hist: list[Any]) -> dict[str, Any]:
                     calls.append(r)
                     wait(r, "done")
                     cfg.handlers.pop("DeviceInfoRequest", None)
+                elif op == "stall":
+                    # the device stops reading while the application has a lot to send: the transport passes its high-water mark (pause_writing)
+                    live = [c for c in dev.conns if not c.sock.closed]
+                    conn_now = cli._connection  # noqa: SLF001
+                    if not live or conn_now is None or not conn_now.is_connected:
+                        skipped += 1
+                        continue
+                    live[-1].sock.send_fault = "block"
+                    try:
+                        for _ in range(int(step[1]) if len(step) > 1 else 200):
+                            cli.send_voice_assistant_audio(b"\x00" * 1024)
+                    except Exception:  # noqa: BLE001  (a refusal to queue more is the library's choice)
+                        pass
+                    sim.run_for(0.001)
                 elif op == "arm-reconnect":
                     armed["n"] += 1
                 elif op == "disc-answer":
@@ -315,6 +329,7 @@ def judge(hist: list[Any], o: dict[str, Any]) -> tuple[list[tuple[str, str]], di
         evs.append((seq, "login_rejected", None))
     evs.sort(key=lambda x: x[0])
     rejected = False
+    forced: dict[int, bool] = {}
     sf_pending: dict[int, dict[str, Any]] = {}   # token -> {"conn": idx|None}
     opened = False
     alive = False
@@ -387,6 +402,7 @@ def judge(hist: list[Any], o: dict[str, Any]) -> tuple[list[tuple[str, str]], di
             else:
                 last_reason = f"after a failed finish ({type(e[6]).__name__})"
         elif kind == "enter:disconnect":
+            forced[e[4]] = bool(e[6].get("force") if len(e) > 6 and isinstance(e[6], dict) else False) or bool(len(e) > 5 and e[5] and e[5][0])
             if opened:
                 last_reason = "after disconnect() between the two connect phases"
             elif sf_pending:
@@ -395,7 +411,12 @@ def judge(hist: list[Any], o: dict[str, Any]) -> tuple[list[tuple[str, str]], di
             for v in sf_pending.values():
                 v["dying"] = True
         elif kind == "ret:disconnect":
-            if e[5] == "ok":          # (a disconnect() that was cancelled or failed has not ended the session)
+            import asyncio as _asyncio  # noqa: PLC0415
+
+            if e[5] == "raised" and not isinstance(e[6], (APIConnectionError, _asyncio.CancelledError)):
+                out.append((f"C19/raw-exception/disconnect/{type(e[6]).__name__}", f"disconnect({'force=True' if forced.get(e[4]) else ''}) raised {e[6]!r}"))
+            if e[5] == "ok" or (forced.get(e[4]) and not isinstance(e[6], _asyncio.CancelledError)):
+                # (a graceful disconnect() that was cancelled or failed has not ended the session; a forced one ends it whatever happens inside)
                 if alive:
                     last_reason = "after disconnect() of a live session"
                 alive = False
@@ -443,8 +464,10 @@ def gen_history(rng: Any) -> list[Any]:
             if rng.random() < 0.35:
                 h.append(["disc-answer", rng.random() < 0.4])
             h.append(["disconnect", rng.choice(["done", "none", "none"])])
-        elif r < 0.62:
+        elif r < 0.61:
             h.append(["force"])
+        elif r < 0.62:
+            h.append(["stall", rng.choice([30, 200, 1500])])
         elif r < 0.65:
             h.append(rng.choice([["disconnect+connect", False], ["disconnect+connect", True], ["request-then-reconnect-on-error"]]))
         elif r < 0.70:
@@ -510,6 +533,13 @@ def shard(ctx: Ctx) -> None:
                 if ctx.mine(idx):
                     h0: list[Any] = [["cfg", {"password": pw}], how] + ([["finish", "done"]] if how[0] == "start" else [])
                     one(ctx, h0 + [["api", k + j] for j in range(16)], "login-rejected-then-api")
+    # the device stops reading with a lot queued, then the application disconnects (gracefully / forced), then connects again
+    for n_kb in (30, 200, 1500):
+        for how in (["force"], ["disconnect", "done"], ["disconnect", "none"], ["dev", "eof"], ["dev", "rst"]):
+            for extra in ([], [["api", 3]], [["run", 1.0]]):
+                idx += 1
+                if ctx.mine(idx):
+                    one(ctx, [["connect", "ok", "done"], ["stall", n_kb]] + extra + [how, ["run", 0.001]], "device-stops-reading-then-session-ends")
     for _ in range(400000 if ctx.thorough else 10000):
         h = gen_history(rng)
         idx += 1
